@@ -38,9 +38,10 @@ git apply /tmp/seed.$$.cur/patch.diff || { echo "RESULT apply-failed"; exit 1; }
 go build ./... || { echo "RESULT build-failed"; exit 1; }
 if go test -vet=off -count=1 ./... >/tmp/seed.$$.base 2>&1; then echo "baseline-with-patch: pass"; else echo "baseline-with-patch: FAIL"; tail -20 /tmp/seed.$$.base; echo "RESULT baseline-fails"; rm -f /tmp/seed.$$.base; exit 1; fi
 rm -f /tmp/seed.$$.base
-if bash -c "$DEMO" >/tmp/seed.$$.d1 2>&1; then echo "demo-with-patch: pass (BAD)"; R1=bad; else echo "demo-with-patch: fail (good)"; R1=ok; fi
+# a demo_cmd may end with a clean-up step that masks the exit code: a FAIL line of go test counts as failure too
+if bash -c "$DEMO" >/tmp/seed.$$.d1 2>&1 && ! grep -q '^--- FAIL\|^FAIL' /tmp/seed.$$.d1; then echo "demo-with-patch: pass (BAD)"; R1=bad; else echo "demo-with-patch: fail (good)"; R1=ok; fi
 tail -5 /tmp/seed.$$.d1 | cut -c1-300; rm -f /tmp/seed.$$.d1
 git checkout -q -- .
-if bash -c "$DEMO" >/tmp/seed.$$.d2 2>&1; then echo "demo-without-patch: pass (good)"; R2=ok; else echo "demo-without-patch: FAIL (BAD)"; tail -20 /tmp/seed.$$.d2 | cut -c1-300; R2=bad; fi
+if bash -c "$DEMO" >/tmp/seed.$$.d2 2>&1 && ! grep -q '^--- FAIL\|^FAIL' /tmp/seed.$$.d2; then echo "demo-without-patch: pass (good)"; R2=ok; else echo "demo-without-patch: FAIL (BAD)"; tail -20 /tmp/seed.$$.d2 | cut -c1-300; R2=bad; fi
 rm -f /tmp/seed.$$.d2
 if [ $R1 = ok ] && [ $R2 = ok ]; then echo "RESULT confirmed"; else echo "RESULT not-confirmed"; exit 1; fi
